@@ -1,0 +1,7 @@
+//go:build !verif
+
+package server
+
+func verifPM(ev string, pid int, state uint8, refCount int, nChilds int, n int) {}
+
+func verifPMGate(point string, pid int, state uint8) {}
